@@ -42,7 +42,7 @@ impl DStep {
     pub fn to_json(&self) -> Value {
         match self {
             DStep::User(Some(rows)) => json!({"step": "user", "rows": words_json(rows)}),
-            DStep::User(None) => json!({"step": "user", "rows": null}),
+            DStep::User(None) => json!({"step": "user", "clear": true}),
             DStep::Map { ll, rl } => json!({"step": "map", "ll": ll, "rl": rl}),
             DStep::WriteRead => json!({"step": "wr"}),
             DStep::Reorder { sents } => json!({"step": "reorder", "sents": sents}),
@@ -52,7 +52,7 @@ impl DStep {
         let seq = |x: &Value| -> Vec<u32> { x.as_array().map(|a| a.iter().map(|c| c.as_u64().unwrap() as u32).collect()).unwrap_or_default() };
         match v["step"].as_str().unwrap() {
             "user" => {
-                if v["rows"].is_null() {
+                if v["rows"].is_null() || v["clear"].as_bool().unwrap_or(false) {
                     DStep::User(None)
                 } else {
                     DStep::User(Some(v["rows"].as_array().unwrap().iter().map(|w| AWord {
